@@ -30,6 +30,7 @@ pub struct IoTrace {
     fail_accepts: unsafe extern "C" fn(c_long, c_int),
     failed_accepts: unsafe extern "C" fn() -> c_long,
     clock_shift: unsafe extern "C" fn(i64),
+    clock_freeze: unsafe extern "C" fn(c_int),
 }
 
 impl IoTrace {
@@ -56,6 +57,7 @@ impl IoTrace {
                 fail_accepts: std::mem::transmute(sym("iotrace_fail_accepts")?),
                 failed_accepts: std::mem::transmute(sym("iotrace_failed_accepts")?),
                 clock_shift: std::mem::transmute(sym("iotrace_clock_shift")?),
+                clock_freeze: std::mem::transmute(sym("iotrace_clock_freeze")?),
             })
         }
     }
@@ -69,6 +71,10 @@ impl IoTrace {
     /// shift every later reading of the wall clock by `ns` nanoseconds (0 = the true time)
     pub fn clock_shift(&self, ns: i64) {
         unsafe { (self.clock_shift)(ns) }
+    }
+    /// the wall clock stands still (every reading gives the time of this call) / runs again
+    pub fn clock_freeze(&self, on: bool) {
+        unsafe { (self.clock_freeze)(on as c_int) }
     }
     pub fn set_dir(&self, dir: &Path) {
         let c = CString::new(dir.to_str().unwrap()).unwrap();
@@ -602,6 +608,9 @@ impl Store {
                 if let Some(io) = &self.io {
                     io.set_dir(&self.dir);
                     io.reset();
+                    // every history starts with the true time
+                    io.clock_freeze(false);
+                    io.clock_shift(0);
                 }
                 Some("ok".into())
             }
@@ -828,6 +837,13 @@ impl Store {
                     Err(e) => format!("err {}", e),
                 })
             }
+            ["clock", what @ ("freeze" | "thaw")] => Some(match &self.io {
+                Some(io) => {
+                    io.clock_freeze(*what == "freeze");
+                    "ok".into()
+                }
+                None => "no-iotrace".into(),
+            }),
             ["clock", ms] => {
                 // the wall clock is stepped: from now on it reads `ms` milliseconds off the true time
                 let ms: i64 = ms.parse().ok()?;
